@@ -102,8 +102,7 @@ def monitor(c):
         if lastf < 0 or not has_full(lo, lastf, so) or (not c["stderr"] and not has_full(le, lastf, se)):
             return ("a redirect target that cannot be written (/dev/full as %s:): State.Log lacks bytes of the last attempt (%d): stdout runs %r "
                     "of %d, stderr runs %r of %d" % ("stdout" if c["full"] == 1 else "stderr", lastf, lo, so, le, 0 if c["stderr"] else se),
-                    dict(base, **{"class": classify(c, "log-full-redirect-beyond-buffer" if c["full"] == 1 and log_flow(c) > BUF
-                                                    else "log-full-redirect")}))
+                    dict(base, **{"class": classify(c, "log-full-redirect")}))
         if c["full"] == 2 and c["stdout"] and not has_full(runs(c["out_file"], "out"), lastf, so):
             return ("stderr: is /dev/full and the stdout: file lacks bytes of the last attempt: runs %r of %d" % (runs(c["out_file"], "out"), so),
                     dict(base, **{"class": classify(c, "stdout-file")}))
